@@ -14,10 +14,12 @@ SHO = 'pmutt.empirical.shomate'
 
 
 def fn_of(repo, mod, name):
+    """the function that the public name mod.name stands for (defined there or imported into it) and its module"""
     m = repo.module(mod)
-    if name not in m.functions:
+    r = repo.lookup(m, name)
+    if not (isinstance(r, tuple) and r[0] == 'function'):
         raise AnchorError('%s.%s not found' % (mod, name))
-    return m, m.functions[name]
+    return r[1], r[2]
 
 
 def evaluator(run, repo, I, mod, name, **kw):
@@ -456,12 +458,32 @@ def neighbour_rules(run, repo):
     for before"""
     n = 0
     delta = C(Fr(1, 2 ** 30))          # 9.3e-10 K; 1000 + 2^-30 is a double
+    # the bounds themselves: whole kelvins, and bounds that no printed resolution reproduces (57 * 2^-30 K = 5.3e-8 K
+    # above a whole kelvin, still doubles: a bound that is rounded, printed and read back, or kept with a fixed number
+    # of decimals is another bound, and a temperature 2^-30 K inside the segment falls outside it; 57 because the
+    # logarithms of these temperatures - exact sums of logarithms of primes - are then cheap to write down)
+    for off, at in ((C(0), ''), (C(Fr(57, 2 ** 30)), ' [bounds 5.3e-8 K above 200, 1000, 6000 K]')):
+        n += neighbours_of(run, repo, C(200) + off, C(1000) + off, C(6000) + off, delta, at)
+    return n
+
+
+def neighbours_of(run, repo, lo, mid, hi, delta, at):
+    n = 0
+    what = 'segments 200-1000 K and 1000-6000 K%s' % at
     # ---- next to a bound, after the bound itself ------------------------------------------------------------------------
-    lo, mid, hi = C(200), C(1000), C(6000)
     for q in QUANTITIES:
         I = interp(repo)
-        o, _ = nasa9_obj(I, repo, 2, bounds=[(lo, mid), (mid, hi)])
+        o, segs = nasa9_obj(I, repo, 2, bounds=[(lo, mid), (mid, hi)])
         owner, fn = repo.find_method(o.ci, 'get_' + q)
+        if q == 'CpoR':
+            # the bounds a segment reports are the bounds it was given
+            for j, (wl, wh) in enumerate(((lo, mid), (mid, hi))):
+                gl, gh = get_public(I, segs[j], 'T_low'), get_public(I, segs[j], 'T_high')
+                run.check(same(gl, wl) and same(gh, wh), 'ORDER.segment', 'nasa.SingleNasa9 bounds',
+                          'segment %d%s' % (j, at),
+                          '%s: segment %d was given the bounds (%s, %s) and reports (%s, %s)'
+                          % (what, j, show(wl), show(wh), show(gl), show(gh)), owner.module, fn)
+                n += 1
         seq = [('T_mid', mid, (0, 1)), ('T_mid + 2^-30 K', mid + delta, (1,)), ('T_mid - 2^-30 K', mid - delta, (0,)),
                ('T_high', hi, (1,)), ('T_high + 2^-30 K', hi + delta, None), ('T_low', lo, (0,)),
                ('T_low - 2^-30 K', lo - delta, None), ('T_mid + 2^-30 K', mid + delta, (1,))]
@@ -475,10 +497,10 @@ def neighbour_rules(run, repo):
             else:
                 ok = used is not None and len(used) == 1 and int(used[0][1:]) in allowed
                 why = 'must be evaluated with segment %s' % ' or '.join(str(j) for j in allowed)
-            run.check(ok, 'ORDER.segment', 'nasa.Nasa9.get_' + q, 'next to a bound: %s after %s' % (label, before),
-                      'segments 200-1000 K and 1000-6000 K: T = %s (asked for after %s) %s, got %s'
-                      % (label, before, why, show(r, 110)), owner.module, fn,
-                      sample='Nasa9.get_%s at %s after %s' % (q, label, before) if q == 'CpoR' else None)
+            run.check(ok, 'ORDER.segment', 'nasa.Nasa9.get_' + q, 'next to a bound: %s after %s%s' % (label, before, at),
+                      '%s: T = %s (asked for after %s) %s, got %s'
+                      % (what, label, before, why, show(r, 110)), owner.module, fn,
+                      sample='Nasa9.get_%s at %s after %s' % (q, label, before) if q == 'CpoR' and not at else None)
             before = label
             n += 1
         # the same temperatures in one array
@@ -490,9 +512,9 @@ def neighbour_rules(run, repo):
         r = I.call_method(o, 'get_' + q, [], {'T': arr})
         used = [vectors_used(x, ('s0', 's1')) for x in r.items] if isinstance(r, ListV) else None
         ok = used is not None and len(used) == 5 and used[1:] == [['s1'], ['s0'], ['s1'], ['s0']] and len(used[0]) == 1
-        run.check(ok, 'ORDER.segment', 'nasa.Nasa9.get_' + q, 'next to a bound: array [T_mid, T_mid + 2^-30 K, ..]',
-                  'segments 200-1000 K and 1000-6000 K: the entries of [T_mid, T_mid + 2^-30, T_mid - 2^-30, T_high, '
-                  'T_low] must be evaluated with segments [0 or 1, 1, 0, 1, 0], got the coefficients %s' % (used,),
+        run.check(ok, 'ORDER.segment', 'nasa.Nasa9.get_' + q, 'next to a bound: array [T_mid, T_mid + 2^-30 K, ..]' + at,
+                  '%s: the entries of [T_mid, T_mid + 2^-30, T_mid - 2^-30, T_high, '
+                  'T_low] must be evaluated with segments [0 or 1, 1, 0, 1, 0], got the coefficients %s' % (what, used),
                   owner.module, fn)
         n += 1
         for order in ((('T_mid', mid, 'hi'), ('T_mid - 2^-30 K', mid - delta, 'lo'), ('T_mid + 2^-30 K', mid + delta, 'hi'),
@@ -506,9 +528,10 @@ def neighbour_rules(run, repo):
                 r = I.call_method(o, 'get_' + q, [], {'T': Tv})
                 used = None if isinstance(r, Raised) else vectors_used(scalar_of(r), ('lo', 'hi'))
                 run.check(used == [want], 'ORDER.get_a', 'nasa.Nasa.get_' + q,
-                          'next to T_mid: %s after %s' % (label, before),
-                          'T_mid = 1000 K: T = %s (asked for after %s) must be evaluated with a_%s, got %s'
-                          % (label, before, 'low' if want == 'lo' else 'high', show(r, 110)), owner.module, fn)
+                          'next to T_mid: %s after %s%s' % (label, before, at),
+                          'T_mid = 1000 K%s: T = %s (asked for after %s) must be evaluated with a_%s, got %s'
+                          % (' + 5.3e-8 K' if at else '', label, before, 'low' if want == 'lo' else 'high', show(r, 110)),
+                          owner.module, fn)
                 before = label
                 n += 1
     return n
@@ -673,35 +696,41 @@ def array_rules(run, repo, max_len):
     """scalar / array agreement (BRANCH-TWIN, bounded unrolling), the caller's temperatures are left as they were
     (EFFECT.argument)"""
     n_bt = 0
-    NASA_RANKS = [2, 4, 3, 2, 4]        # alternating between the low and high segment, one exactly on T_mid
-    NASA9_RANKS = [5, 15, 10, 3, 17]    # two segments, unsorted, one on the shared bound
+    # the temperatures of one container are pairwise different (different ranks: nothing may be decided by two of
+    # them being "equal"), unsorted, and the container starts with a descent (a getter that assumes ascending
+    # temperatures - remembers the segment, sorts, looks at the first / last entry only - is wrong from entry 1 on)
+    NASA_RANKS = [40, 20, 30, 25, 45]   # bounds 10 / 30 / 50: high, low, exactly on T_mid, low, high
+    NASA9_RANKS = [15, 5, 10, 3, 17]    # two segments 0-10-20: upper, lower, on the shared bound, lower, upper
+    SHOMATE_RANKS = [6, 2, 4, 3, 7]     # bounds 1 / 9: all inside, unsorted
 
     def make(kind, n, with_misc=False, cls=None):
+        misc = (lambda I_: attached_models(I_, 1, params=('T',)) if with_misc else None)
         if kind == 'Nasa':
-            ranks = {'sp.T_low': 1, 'sp.T_mid': 3, 'sp.T_high': 5}
+            ranks = {'sp.T_low': 10, 'sp.T_mid': 30, 'sp.T_high': 50}
             for i in range(n):
-                ranks['T%d' % i] = NASA_RANKS[i % len(NASA_RANKS)]
+                ranks['T%d' % i] = NASA_RANKS[i % len(NASA_RANKS)] + Fr(i // len(NASA_RANKS), 1000)
             I = interp(repo, ranks, cls=cls)
-            return I, nasa_obj(I, repo, misc=attached_models(I, 1, params=('T',)) if with_misc else None)
+            return I, nasa_obj(I, repo, misc=misc(I))
         if kind == 'Nasa9':
             ranks = seg_ranks(2)
             for i in range(n):
-                ranks['T%d' % i] = NASA9_RANKS[i % len(NASA9_RANKS)]
+                ranks['T%d' % i] = NASA9_RANKS[i % len(NASA9_RANKS)] + Fr(i // len(NASA9_RANKS), 1000)
             I = interp(repo, ranks, cls=cls)
-            return I, nasa9_obj(I, repo, 2, misc=attached_models(I, 1, params=('T',)) if with_misc else None)[0]
-        ranks = {'sp.T_low': 1, 'sp.T_high': 5}
+            return I, nasa9_obj(I, repo, 2, misc=misc(I))[0]
+        ranks = {'sp.T_low': 1, 'sp.T_high': 9}
         for i in range(n):
-            ranks['T%d' % i] = 3
+            ranks['T%d' % i] = SHOMATE_RANKS[i % len(SHOMATE_RANKS)] + Fr(i // len(SHOMATE_RANKS), 1000)
         I = interp(repo, ranks, cls=cls)
-        return I, shomate_obj(I, repo, I.D.sym('units'))
+        return I, shomate_obj(I, repo, I.D.sym('units'), misc=misc(I))
 
     def temperatures(I, n, form, dtype=None):
         Ts = [I.D.sym('T%d' % i) for i in range(n)]
         arr = ListV(list(Ts))
         if form == 'array':
             arr.is_array = True
-            if dtype:
-                arr.dtype = dtype
+            # the caller's array: its element type is the caller's business (np.arange(300, 2000, 250) holds integers);
+            # every array derived from it without a conversion has that element type too
+            arr.dtype = dtype or 'caller'
         return Ts, arr
 
     def untouched(I, o, kind, modname, q, arr, Ts, form, owner, fn):
@@ -715,17 +744,35 @@ def array_rules(run, repo, max_len):
 
     # with a model attached (its contribution depends on T): every entry of the array carries the model's value at its
     # own temperature
-    for kind in ('Nasa', 'Nasa9'):
+    for kind, modname in (('Nasa', 'nasa'), ('Nasa9', 'nasa'), ('Shomate', 'shomate')):
         for q in ('CpoR', 'HoRT', 'SoR', 'GoRT'):
             I, o = make(kind, 3, with_misc=True)
             Ts, arr = temperatures(I, 3, 'array', 'float')
             owner, fn = repo.find_method(o.ci, 'get_' + q)
             got = I.call_method(o, 'get_' + q, [], {'T': arr})
-            untouched(I, o, kind, 'nasa', q, arr, Ts, 'array of floats', owner, fn)
+            untouched(I, o, kind, modname, q, arr, Ts, 'array of floats', owner, fn)
             each = [I.call_method(o, 'get_' + q, [], {'T': t}) for t in Ts]
             ok = isinstance(got, ListV) and len(got) == 3 and all(same(x, y) for x, y in zip(got.items, each))
-            run.check(ok, 'BRANCH-TWIN', 'nasa.%s.get_%s' % (kind, q), 'array-vs-elementwise with an attached model',
+            run.check(ok, 'BRANCH-TWIN', '%s.%s.get_%s' % (modname, kind, q), 'array-vs-elementwise with an attached model',
                       'with a model attached the array result %s differs from element-by-element evaluation %s'
+                      % (show(got, 200), show(ListV(each), 200)), owner.module, fn)
+            n_bt += 1
+    # a temperature that occurs twice in one container: one entry per entry given, each at its own position
+    for kind, modname in (('Nasa', 'nasa'), ('Nasa9', 'nasa'), ('Shomate', 'shomate')):
+        for q in ('CpoR', 'HoRT', 'SoR', 'GoRT'):
+            I, o = make(kind, 2)
+            Ts, _ = temperatures(I, 2, 'array')
+            Ts = [Ts[0], Ts[1], Ts[0]]
+            arr = ListV(list(Ts))
+            arr.is_array = True
+            arr.dtype = 'caller'
+            owner, fn = repo.find_method(o.ci, 'get_' + q)
+            got = I.call_method(o, 'get_' + q, [], {'T': arr})
+            untouched(I, o, kind, modname, q, arr, Ts, 'array with a repeated temperature', owner, fn)
+            each = [I.call_method(o, 'get_' + q, [], {'T': t}) for t in Ts]
+            ok = isinstance(got, ListV) and len(got) == 3 and all(same(x, y) for x, y in zip(got.items, each))
+            run.check(ok, 'BRANCH-TWIN', '%s.%s.get_%s' % (modname, kind, q), 'array-vs-elementwise with a repeated temperature',
+                      'for the array [T0, T1, T0] the result %s differs from element-by-element evaluation %s'
                       % (show(got, 200), show(ListV(each), 200)), owner.module, fn)
             n_bt += 1
     for kind, modname in (('Nasa', 'nasa'), ('Nasa9', 'nasa'), ('Shomate', 'shomate')):
@@ -815,16 +862,25 @@ def _dtype_kind(node):
     return 'other'
 
 
-class Scope:
-    """what is known about the local names at one point of a function: the kind of number each holds and, for names
-    that hold whole-number constants (or a container of them), which"""
+class FuncVal:
+    """a function met as a value (the argument of a decorator, what a decorator returns, a helper bound to a name): a
+    def / lambda together with the scope it was defined in (None: module level) and the class whose method it is"""
 
-    def __init__(self, kinds=None, consts=None):
+    def __init__(self, m, node, closure=None, ci=None):
+        self.m, self.node, self.closure, self.ci = m, node, closure, ci
+
+
+class Scope:
+    """what is known about the local names at one point of a function: the kind of number each holds, for names
+    that hold whole-number constants (or a container of them) which, and for names that hold a function which"""
+
+    def __init__(self, kinds=None, consts=None, funcs=None):
         self.k = dict(kinds or {})
         self.c = dict(consts or {})
+        self.f = dict(funcs or {})
 
     def copy(self):
-        return Scope(self.k, self.c)
+        return Scope(self.k, self.c, self.f)
 
     @staticmethod
     def join(scopes):
@@ -838,6 +894,9 @@ class Scope:
             vals = [s_.c[nm] for s_ in scopes]
             if all(v is not None for v in vals):
                 out.c[nm] = frozenset().union(*vals)
+        for nm in set.intersection(*[set(s_.f) for s_ in scopes]):
+            if all(s_.f[nm] is scopes[0].f[nm] for s_ in scopes):
+                out.f[nm] = scopes[0].f[nm]
         return out
 
 
@@ -858,6 +917,8 @@ class KindFlow:
         self.m = None
         self.ci = None
         self.rets = []
+        self.retf = []
+        self.last_fret = None            # the function the last call returned, when it returns one function on every path
         self.active = []
 
     @staticmethod
@@ -881,21 +942,160 @@ class KindFlow:
             return 'carry'
         return 'unknown'
 
+    @staticmethod
+    def flat(k):
+        """one kind for a value that may be a tuple of kinds"""
+        if isinstance(k, str):
+            return k
+        return KindFlow.join([KindFlow.flat(x) for x in k])
+
     # ---- functions -----------------------------------------------------------------------------------------------
     def function(self, m, fdef, scope, ci=None):
-        """kind of what fdef returns when entered with ``scope``"""
+        """kind of what fdef returns when entered with ``scope``: one kind, or a tuple of kinds when every return
+        statement returns a tuple display of the same length (``return np.asarray(a), float(T)``).  ``last_fret`` is the
+        function it returns when it returns the same def / lambda on every path (a decorator)."""
+        self.last_fret = None
         if id(fdef) in self.active or len(self.active) > 8:
             return 'unknown'
         saved = (self.m, self.ci)
         self.m, self.ci = m, ci
         self.active.append(id(fdef))
         self.rets.append([])
+        self.retf.append([])
+        fret = None
         try:
-            self.block(fdef.body, scope)
-            return self.join(self.rets[-1])
+            if isinstance(fdef, ast.Lambda):
+                self.rets[-1].append(self.ret_kind(fdef.body, scope))
+                self.retf[-1].append(self.func_value(fdef.body, scope))
+            else:
+                self.block(fdef.body, scope)
+            rets, retf = self.rets[-1], self.retf[-1]
+            if retf and all(x is not None and x.node is retf[0].node for x in retf):
+                fret = retf[0]
+            if rets and all(isinstance(r_, tuple) and len(r_) == len(rets[0]) for r_ in rets):
+                return tuple(self.join([self.flat(r_[i]) for r_ in rets]) for i in range(len(rets[0])))
+            return self.join([self.flat(r_) for r_ in rets])
         finally:
             self.rets.pop()
+            self.retf.pop()
             self.active.pop()
+            self.m, self.ci = saved
+            self.last_fret = fret
+
+    def ret_kind(self, value, sc):
+        if isinstance(value, ast.Tuple) and not any(isinstance(x, ast.Starred) for x in value.elts):
+            return tuple(self.kind(x, sc) for x in value.elts)
+        if isinstance(value, ast.Call):
+            return self.call(value, sc)
+        return self.kind(value, sc)
+
+    def func_value(self, e, sc):
+        """the function an expression denotes (FuncVal), None when it is not one this flow follows"""
+        if isinstance(e, ast.Name):
+            if e.id in sc.f:
+                return sc.f[e.id]
+            if e.id in sc.k or e.id in sc.c:
+                return None
+        if isinstance(e, ast.Lambda):
+            return FuncVal(self.m, e, sc, self.ci)
+        if isinstance(e, (ast.Name, ast.Attribute)) and not (
+                isinstance(e, ast.Attribute) and isinstance(e.value, ast.Name) and e.value.id in sc.k):
+            try:
+                r = self.repo.resolve_expr(self.m, e)
+            except Unsupported:
+                return None
+            if isinstance(r, tuple) and r[0] == 'function':
+                return self.named(FuncVal(r[1], r[2]))
+            if isinstance(r, tuple) and r[0] == 'value' and isinstance(r[2], ast.Lambda):
+                return FuncVal(r[1], r[2])
+        return None
+
+    def named(self, fv):
+        """what the name of a def of the repository stands for: what its decorators make of the def (None: not followed)"""
+        if id(fv.node) in self.stop_at:
+            return fv                   # an entry point of its own: never entered from here
+        for d in reversed(fv.node.decorator_list):
+            fv = self.decorate(fv.m, fv.ci, d, fv) if fv is not None else None
+        return fv
+
+    @staticmethod
+    def _is_wraps(d):
+        """functools.wraps(f) / functools.update_wrapper-style decorators hand the decorated function back"""
+        if isinstance(d, ast.Call):
+            f = d.func
+            return (f.id if isinstance(f, ast.Name) else f.attr if isinstance(f, ast.Attribute) else None) == 'wraps'
+        return False
+
+    def apply(self, fv, argk, kwk, sc_args=None, star=None):
+        """kind of what the function value fv returns for positional kinds argk / keyword kinds kwk.  sc_args:
+        ([argument nodes], {keyword: node}, scope of the call) so that constants and functions passed as arguments are
+        followed; star: kind of what ``*args`` / ``**kwargs`` of the call hold"""
+        node = fv.node
+        if id(node) in self.stop_at:
+            self.last_fret = None
+            return 'unknown'            # analysed as an entry point of its own, with every argument the caller's
+        names, _, vararg, kwarg = params(node)
+        sub_ = fv.closure.copy() if fv.closure is not None else Scope()
+        for nm in list(names) + [x for x in (vararg, kwarg) if x]:
+            sub_.k[nm] = star if star is not None else 'unknown'
+            sub_.c.pop(nm, None)
+            sub_.f.pop(nm, None)
+        anodes, kwnodes, csc = sc_args if sc_args is not None else ([], {}, None)
+        for i, (p_, a_) in enumerate(zip(names, argk)):
+            sub_.k[p_] = self.flat(a_)
+            if i < len(anodes) and csc is not None and not isinstance(anodes[i], ast.Starred):
+                c_ = self.consts(anodes[i], csc)
+                if c_ is not None:
+                    sub_.c[p_] = c_
+                fv_ = self.func_value(anodes[i], csc)
+                if fv_ is not None:
+                    sub_.f[p_] = fv_
+        if vararg and len(argk) > len(names):
+            sub_.k[vararg] = self.join([self.flat(x) for x in argk[len(names):]] + ([star] if star is not None else []))
+        extra = []
+        for nm, k_ in kwk.items():
+            if nm in names:
+                sub_.k[nm] = self.flat(k_)
+                if csc is not None and nm in kwnodes:
+                    c_ = self.consts(kwnodes[nm], csc)
+                    if c_ is not None:
+                        sub_.c[nm] = c_
+                    fv_ = self.func_value(kwnodes[nm], csc)
+                    if fv_ is not None:
+                        sub_.f[nm] = fv_
+            else:
+                extra.append(self.flat(k_))
+        if kwarg and extra:
+            sub_.k[kwarg] = self.join(extra + ([star] if star is not None else []))
+        return self.function(fv.m, node, sub_, fv.ci)
+
+    def decorate(self, m, ci, dec, fv):
+        """the function value that ``@dec`` makes of the function value fv, None when this flow does not follow it"""
+        if self._is_wraps(dec):
+            return fv
+        if isinstance(dec, (ast.Name, ast.Attribute)) and ast.unparse(dec) in ('staticmethod', 'classmethod'):
+            return fv
+        saved = (self.m, self.ci)
+        self.m, self.ci = m, ci
+        try:
+            d = self.func_value(dec, Scope())
+            if d is None and isinstance(dec, ast.Call):
+                self.kind(dec, Scope())             # a decorator factory: the function its call returns
+                d = self.last_fret
+            if d is None:
+                return None
+            names = params(d.node)[0]
+            if not names:
+                return None
+            sub_ = d.closure.copy() if d.closure is not None else Scope()
+            for nm in names:
+                sub_.k[nm] = 'unknown'
+                sub_.c.pop(nm, None)
+                sub_.f.pop(nm, None)
+            sub_.f[names[0]] = fv
+            self.function(d.m, d.node, sub_, d.ci)
+            return self.last_fret
+        finally:
             self.m, self.ci = saved
 
     # ---- statements ----------------------------------------------------------------------------------------------
@@ -926,7 +1126,9 @@ class KindFlow:
                 self.kind(st.target, sc)
             return sc
         if isinstance(st, ast.Return):
-            self.rets[-1].append(self.kind(st.value, sc) if st.value is not None else 'unknown')
+            fv = self.func_value(st.value, sc) if st.value is not None else None
+            self.rets[-1].append(self.ret_kind(st.value, sc) if st.value is not None else 'unknown')
+            self.retf[-1].append(fv)
             return None
         if isinstance(st, ast.Raise):
             if st.exc is not None:
@@ -973,6 +1175,14 @@ class KindFlow:
         if isinstance(st, (ast.FunctionDef, ast.ClassDef, ast.Lambda)):
             if isinstance(st, ast.FunctionDef):
                 sc.k[st.name] = 'unknown'
+                sc.c.pop(st.name, None)
+                fv = FuncVal(self.m, st, sc, self.ci)      # the scope itself: a closure sees what is bound later
+                for d in reversed(st.decorator_list):
+                    fv = self.decorate(self.m, self.ci, d, fv) if fv is not None else None
+                if fv is not None:
+                    sc.f[st.name] = fv
+                else:
+                    sc.f.pop(st.name, None)
             return sc
         for ch in ast.iter_child_nodes(st):
             if isinstance(ch, ast.expr):
@@ -986,18 +1196,25 @@ class KindFlow:
             for t, (k, c_) in zip(target.elts, vals):
                 self.bind(t, k, sc, c_)
             return
+        if isinstance(target, (ast.Tuple, ast.List)) and isinstance(value, ast.Call):
+            self.bind(target, self.call(value, sc), sc)         # a helper that returns several values: one kind each
+            return
+        fv = self.func_value(value, sc) if isinstance(target, ast.Name) else None
         self.bind(target, self.kind(value, sc), sc, self.consts(value, sc))
+        if fv is not None:
+            sc.f[target.id] = fv
 
     def bind(self, target, k, sc, consts=None):
         if isinstance(target, ast.Name):
-            sc.k[target.id] = k if isinstance(k, str) else self.join(k)
+            sc.k[target.id] = self.flat(k)
+            sc.f.pop(target.id, None)
             if consts is not None:
                 sc.c[target.id] = consts
             else:
                 sc.c.pop(target.id, None)
         elif isinstance(target, (ast.Tuple, ast.List)):
             ks = list(k) if isinstance(k, tuple) and len(k) == len(target.elts) else \
-                [k if isinstance(k, str) else self.join(k)] * len(target.elts)
+                [self.flat(k)] * len(target.elts)
             for t, kk in zip(target.elts, ks):
                 self.bind(t, kk, sc)
         elif isinstance(target, ast.Starred):
@@ -1160,7 +1377,7 @@ class KindFlow:
             self.bind(e.target, k, sc, self.consts(e.value, sc))
             return k
         if isinstance(e, ast.Call):
-            return self.call(e, sc)
+            return self.flat(self.call(e, sc))
         if isinstance(e, ast.Lambda):
             return 'unknown'
         for ch in ast.iter_child_nodes(e):
@@ -1174,6 +1391,7 @@ class KindFlow:
         recv = self.kind(f.value, sc) if isinstance(f, ast.Attribute) else None
         if not isinstance(f, (ast.Name, ast.Attribute)):
             self.kind(f, sc)
+        self.last_fret = None
         argk = [self.kind(a, sc) for a in e.args]
         kwk = {kw.arg: self.kind(kw.value, sc) for kw in e.keywords}
         if fname == 'pow' and isinstance(f, ast.Attribute):
@@ -1185,38 +1403,36 @@ class KindFlow:
             if kw.arg == 'dtype':
                 return 'float' if _dtype_kind(kw.value) == 'float' else 'unknown'
         target = None
-        if isinstance(f, ast.Attribute) and isinstance(f.value, ast.Name) and f.value.id in ('self', 'cls') \
+        if isinstance(f, ast.Name) and f.id in sc.f:
+            target = sc.f[f.id]         # a nested def, a lambda, a function received as an argument
+        elif isinstance(f, ast.Attribute) and isinstance(f.value, ast.Name) and f.value.id in ('self', 'cls') \
                 and self.ci is not None and f.value.id not in sc.k:
             got = self.repo.find_method(self.ci, f.attr, missing_ok=True)
             if got:
-                target = ('method', got[0], got[1])
+                target = self.named(FuncVal(got[0].module, got[1], None, got[0]))
+                if target is None:
+                    return 'unknown'
         elif isinstance(f, (ast.Name, ast.Attribute)) and not (isinstance(f, ast.Name) and f.id in sc.k):
-            target = self.repo.resolve_expr(self.m, f)
-        if isinstance(target, tuple) and target[0] in ('function', 'method'):
-            if target[0] == 'function':
-                _, fm, fdef = target
-                owner = None
-            else:
-                _, owner, fdef = target
-                fm = owner.module
-            if id(fdef) in self.stop_at:
-                return 'unknown'        # analysed as an entry point of its own, with every argument the caller's
-            pos = list(params(fdef)[0])
-            if owner is not None and pos and not any(ast.unparse(d) == 'staticmethod' for d in fdef.decorator_list):
-                pos = pos[1:]
-            sub_ = Scope()
-            for p_, a_, an in zip(pos, argk, e.args):
-                sub_.k[p_] = a_
-                c_ = self.consts(an, sc)
-                if c_ is not None:
-                    sub_.c[p_] = c_
-            for kw in e.keywords:
-                if kw.arg:
-                    sub_.k[kw.arg] = kwk[kw.arg]
-                    c_ = self.consts(kw.value, sc)
-                    if c_ is not None:
-                        sub_.c[kw.arg] = c_
-            return self.function(fm, fdef, sub_, owner if owner is not None else None)
+            r = self.repo.resolve_expr(self.m, f)
+            if isinstance(r, tuple) and r[0] == 'function':
+                target = self.named(FuncVal(r[1], r[2]))
+            elif isinstance(r, tuple) and r[0] == 'method':
+                target = self.named(FuncVal(r[1].module, r[2], None, r[1]))
+            elif isinstance(r, tuple) and r[0] == 'value' and isinstance(r[2], ast.Lambda):
+                target = FuncVal(r[1], r[2])
+            if target is None and isinstance(r, tuple) and r[0] in ('function', 'method'):
+                return 'unknown'
+        if target is not None:
+            stars = [k_ for a_, k_ in zip(e.args, argk) if isinstance(a_, ast.Starred)] + \
+                ([kwk[None]] if None in kwk else [])
+            pos_k = []
+            for a_, k_ in zip(e.args, argk):
+                if isinstance(a_, ast.Starred):
+                    break
+                pos_k.append(k_)
+            return self.apply(target, pos_k, {k_: v_ for k_, v_ in kwk.items() if k_ is not None},
+                              (list(e.args), {kw.arg: kw.value for kw in e.keywords if kw.arg}, sc),
+                              self.join(stars) if stars else None)
         if fname in FLOAT_MAKERS or fname in FLOAT_RESULTS:
             return 'float'
         if fname == 'astype' and e.args:
@@ -1241,9 +1457,11 @@ def integer_temperatures(run, repo):
     for modname in (NASA, SHO):
         m = repo.module(modname)
         short = modname.split('.')[-1]
-        for fname, fn in sorted(m.functions.items()):
+        for fname in sorted(set(m.functions) | set(m.aliases)):
             if fname.startswith('get_'):
-                entries.append(('%s.%s' % (short, fname), m, fn, None))
+                r = repo.lookup(m, fname)           # defined in the module or imported into it
+                if isinstance(r, tuple) and r[0] == 'function':
+                    entries.append(('%s.%s' % (short, fname), r[1], r[2], None))
         for cname, ci in sorted(m.classes.items()):
             for mname, fn in sorted(ci.methods.items()):
                 if mname.startswith('get_') and '.' not in mname:
@@ -1262,10 +1480,17 @@ def integer_temperatures(run, repo):
             if old is None or RANK[kind] > RANK[old[2]]:
                 sites[key] = (pm, node, kind, how, base)
         flow = KindFlow(repo, on_power, stop_at=stop - {id(fn)})
-        pos = list(params(fn)[0])
-        if ci is not None and pos and not any(ast.unparse(d) == 'staticmethod' for d in fn.decorator_list):
-            pos = pos[1:]
-        flow.function(m, fn, Scope({p: 'carry' for p in pos}), ci)
+        # what is called under the evaluator's name is what its decorators make of it; every argument of that
+        # holds the caller's number as it is
+        entry = FuncVal(m, fn, None, ci)
+        for d in reversed(fn.decorator_list):
+            entry = flow.decorate(m, ci, d, entry) if entry is not None else None
+        if entry is None:
+            # a decorator this flow does not follow: nothing is known about what reaches the evaluator
+            flow.function(m, fn, Scope(), ci)
+        else:
+            names, _, vararg, kwarg = params(entry.node)
+            flow.apply(entry, ['carry'] * len(names), {}, None, 'carry')
         decided[con] = 0
         for key in sorted(sites):
             pm, node, kind, how, base = sites[key]
@@ -1328,7 +1553,7 @@ def check(run, repo):
     # decided on the syntax tree alone, so before anything that may leave the interpreted fragment
     run.extra['negative integer powers of an argument'], decided = integer_temperatures(run, repo)
     shomate_units(run, repo, ('J/mol/K', 'kJ/mol/K', 'cal/mol/K', 'kcal/mol/K', 'eV/K'))
-    run.floor('temperatures next to a bound', neighbour_rules(run, repo), 60)
+    run.floor('temperatures next to a bound', neighbour_rules(run, repo), 130)
     fams = {}
     fams['nasa'] = slot_rules(run, repo, 'nasa', NASA, 'get_nasa_', 7)
     fams['nasa9'] = slot_rules(run, repo, 'nasa9', NASA, 'get_nasa9_', 9)
@@ -1343,7 +1568,7 @@ def check(run, repo):
     class_rules(run, repo)
     run.floor('species evaluated after another one / after their data were replaced', state_rules(run, repo), 36)
     nbt = array_rules(run, repo, 5 if thorough else 3)
-    run.floor('BRANCH-TWIN instances', nbt, 56)
+    run.floor('BRANCH-TWIN instances', nbt, 72)
     run.extra['array_length_bound'] = 5 if thorough else 3
 
 
@@ -1431,6 +1656,47 @@ MUTANTS = [
      'edits': [(N, 'T_arr = np.array([1. / T**2, 1. / T, np.ones_like(T), T, T**2, T**3, T**4,\n'
                    '                      np.zeros_like(T), np.zeros_like(T)])',
                 'T_arr = np.array([T**n for n in range(-2, 5)] + [np.zeros_like(T), np.zeros_like(T)])')]},
+    # white-box round 3
+    {'name': 'Shomate range check sorts the temperatures it is given (the getter\'s own copy) in place',
+     'expect': ('BRANCH-TWIN', 'Shomate.get_'),
+     'edits': [(S, "    def _check_T(self, T):\n        for T_i in T:\n", "    def _check_T(self, T):\n        T.sort()\n        for T_i in T:\n")]},
+    {'name': 'Shomate Cp evaluated on the sorted temperatures', 'expect': ('BRANCH-TWIN', 'Shomate.get_CpoR'),
+     'edits': [(S, "        T = np.array(T)\n        self._check_T(T)\n", "        T = np.sort(np.array(T))\n        self._check_T(T)\n", 0, 3)]},
+    {'name': 'NASA-7 enthalpy array branch keeps the high-temperature coefficients once T_mid was passed',
+     'expect': ('BRANCH-TWIN', 'Nasa.get_HoRT'),
+     'edits': [(N, "            for i, T_i in enumerate(T):\n                a = self.get_a(T=T_i)\n",
+                "            above_T_mid = False\n            for i, T_i in enumerate(T):\n"
+                "                if not above_T_mid:\n                    a = self.get_a(T=T_i)\n"
+                "                    above_T_mid = T_i >= self.T_mid\n", 0, 2)]},
+    {'name': 'Shomate enthalpy adds the attached-model sum of the last temperature to every entry',
+     'expect': ('BRANCH-TWIN', 'Shomate.get_HoRT'),
+     'edits': [(S, "        for i, T_i in enumerate(T):\n            HoRT[i] += np.sum(\n", "        for T_i in T:\n            mix = np.sum(\n"),
+               (S, "        if len(T) == 1:\n            HoRT = HoRT.item(0)\n", "        HoRT += mix\n        if len(T) == 1:\n            HoRT = HoRT.item(0)\n")]},
+    {'name': 'NASA-9 segment bounds kept with three decimals by a property(fget, fset) setter',
+     'expect': ('ORDER.segment', ''),
+     'edits': [(N, "        self.T_high = T_high\n        self.a = np.array(a)\n\n",
+                "        self.T_high = T_high\n        self.a = np.array(a)\n\n"
+                "    def _get_T_low(self):\n        return self._T_low\n\n"
+                "    def _set_T_low(self, val):\n        self._T_low = float('{:.3f}'.format(val))\n\n"
+                "    def _get_T_high(self):\n        return self._T_high\n\n"
+                "    def _set_T_high(self, val):\n        self._T_high = float('{:.3f}'.format(val))\n\n"
+                "    T_low = property(_get_T_low, _set_T_low, doc='Lower temperature bound (in K)')\n"
+                "    T_high = property(_get_T_high, _set_T_high, doc='High temperature bound (in K)')\n\n")]},
+    {'name': 'NASA-7 break temperature kept with three decimals by its setter', 'expect': ('ORDER.get_a', 'Nasa.get_'),
+     'edits': [(N, "    def get_a(self, T):\n",
+                "    @property\n    def T_mid(self):\n        return self._T_mid\n\n"
+                "    @T_mid.setter\n    def T_mid(self, val):\n        self._T_mid = float('{:.3f}'.format(val))\n\n"
+                "    def get_a(self, T):\n")]},
+    {'name': 'nasa9 HoRT: the float conversion moved into a decorator that no longer converts',
+     'expect': ('TYPE.negpow', 'get_nasa9_HoRT'),
+     'edits': [(N, "def get_nasa9_HoRT(a, T):\n",
+                "def _scalar_temperature(evaluator):\n    def wrapper(a, T):\n        return evaluator(a=a, T=np.squeeze(T))\n"
+                "    return wrapper\n\n\n@_scalar_temperature\ndef get_nasa9_HoRT(a, T):\n"),
+               (N, "    T = float(np.squeeze(T))\n", "", 0, 2)]},
+    {'name': 'nasa9 SoR: helper returns coefficients and the temperature as it came', 'expect': ('TYPE.negpow', 'get_nasa9_SoR'),
+     'edits': [(N, "def get_nasa9_SoR(a, T):\n",
+                "def _as_arrays(a, T):\n    return np.asarray(a), np.squeeze(T)\n\n\ndef get_nasa9_SoR(a, T):\n"),
+               (N, "    T = float(np.squeeze(T))\n", "    a, T = _as_arrays(a, T)\n", 1, 2)]},
 ]
 EQUIV = [
     {'name': 'nasa9 HoRT made a float through dtype', 
@@ -1465,4 +1731,30 @@ EQUIV = [
                 "            T = np.asarray(T, dtype=np.double)\n"
                 "            CpoR = a[:, 0] + a[:, 1] * T + a[:, 2] * T**2 + a[:, 3] * T**3 + a[:, 4] * T**4\n"
                 "        elif _is_iterable(T):\n            CpoR = np.zeros(len(T))\n", 0, 2)]},
+    # white-box round 3
+    {'name': 'result buffers shaped like the temperatures converted to float64',
+     'edits': [(N, "HoRT = np.zeros_like(a=T, dtype=np.double)", "HoRT = np.zeros_like(np.asanyarray(T, dtype=np.double))", 0, 2),
+               (N, "SoR = np.zeros_like(a=T, dtype=np.double)", "SoR = np.zeros_like(np.asanyarray(T, dtype=np.double))", 1, 2)]},
+    {'name': 'nasa9 HoRT: the float conversion moved into a decorator',
+     'edits': [(N, "import inspect\n", "import functools\nimport inspect\n"),
+               (N, "def get_nasa9_HoRT(a, T):\n",
+                "def _scalar_temperature(evaluator):\n    @functools.wraps(evaluator)\n    def wrapper(a, T):\n"
+                "        return evaluator(a=a, T=float(np.squeeze(T)))\n"
+                "    return wrapper\n\n\n@_scalar_temperature\ndef get_nasa9_HoRT(a, T):\n"),
+               (N, "    T = float(np.squeeze(T))\n", "", 0, 2)]},
+    {'name': 'nasa9 SoR: helper returns coefficients and the temperature as a float',
+     'edits': [(N, "def get_nasa9_SoR(a, T):\n",
+                "def _as_arrays(a, T):\n    return np.asarray(a), float(np.squeeze(T))\n\n\ndef get_nasa9_SoR(a, T):\n"),
+               (N, "    T = float(np.squeeze(T))\n", "    a, T = _as_arrays(a, T)\n", 1, 2)]},
+    {'name': 'NASA-9 segment bounds behind pass-through property(fget, fset)',
+     'edits': [(N, "        self.T_high = T_high\n        self.a = np.array(a)\n\n",
+                "        self.T_high = T_high\n        self.a = np.array(a)\n\n"
+                "    def _get_T_low(self):\n        return self._T_low\n\n"
+                "    def _set_T_low(self, val):\n        self._T_low = val\n\n"
+                "    def _get_T_high(self):\n        return self._T_high\n\n"
+                "    def _set_T_high(self, val):\n        self._T_high = val\n\n"
+                "    T_low = property(_get_T_low, _set_T_low, doc='Lower temperature bound (in K)')\n"
+                "    T_high = property(_get_T_high, _set_T_high, doc='High temperature bound (in K)')\n\n")]},
+    {'name': 'Shomate range check on a sorted copy of the temperatures',
+     'edits': [(S, "    def _check_T(self, T):\n        for T_i in T:\n", "    def _check_T(self, T):\n        for T_i in np.sort(T):\n")]},
 ]
